@@ -262,9 +262,8 @@ class Obj(object):
         return sym_not(r)
 
     def __hash__(self):
-        interp = _current_interp[0]
-        if interp is not None and interp.find_class_attr(self._cls, "__hash__") is not None:
-            return interp.call_method(self, "__hash__", [], {})
+        # Python-level identity hash; the program-level hash() goes through models.m_hash, and dict
+        # operations with instances that define __eq__ are modelled by search (see Interp._objkey_find)
         return id(self)
 
     def __iter__(self):
@@ -1407,6 +1406,10 @@ class Interp(object):
             st.writes.append((o, "[]"))
         if isinstance(o, Obj):
             return self.call_method(o, "__setitem__", [k, val], {})
+        if isinstance(o, dict) and isinstance(k, Obj) and self.find_class_attr(k._cls, "__eq__") is not None:
+            key = self._objkey_find(o, k)
+            o[k if key is None else key] = val
+            return
         if isinstance(o, dict) and is_sym(k):
             raise Unsupported("symbolic dict key")
         if isinstance(o, list) and is_sym(k):
@@ -1499,10 +1502,27 @@ class Interp(object):
         except _NATIVE_EXC as e:
             raise ProgExc(type(e), "in")
 
+    def _objkey_find(self, d, k):
+        """dict lookup with an instance key whose class defines __eq__: equal keys are found by search
+        (relies on hash consistency, proved for ObjectListKey in harness object_list_key)"""
+        if self.find_class_attr(k._cls, "__hash__") is not None:
+            self.call_method(k, "__hash__", [], {})          # the real lookup evaluates it
+        for key in list(d.keys()):
+            if key is k:
+                return key
+            if isinstance(key, Obj) and self.truth(self.call_method(key, "__eq__", [k], {})):
+                return key
+        return None
+
     def getitem(self, o, k):
         m = self.models.get(("getitem", type(o)))
         if m is not None:
             return m(self, o, k)
+        if isinstance(o, dict) and isinstance(k, Obj) and self.find_class_attr(k._cls, "__eq__") is not None:
+            key = self._objkey_find(o, k)
+            if key is None:
+                raise ProgExc(KeyError, "key")
+            return o[key]
         if isinstance(o, Obj):
             return self.call_method(o, "__getitem__", [k], {})
         if isinstance(o, (list, tuple)) and isinstance(k, SymInt):
@@ -1525,9 +1545,12 @@ class Interp(object):
                         return o[key]
                 raise ProgExc(KeyError, "key")
         try:
-            return o[k]
+            r = o[k]
         except _NATIVE_EXC as e:
             raise ProgExc(type(e), "getitem")
+        if isinstance(o, list) and isinstance(k, slice):
+            self._note_alloc(r)
+        return r
 
     def eval_slice(self, node, env, func):
         if isinstance(node, ast.Slice):
